@@ -119,11 +119,12 @@ static void check(int idx)
 #endif
     free(j);
     parsec_argv_free(v);
-    if (nf >= 3 && ndel >= 2 && n == L) VWITNESS("three or more fields");
 #if EMPTY
+    if (nf >= 3 && ndel >= 2 && n == L) VWITNESS("three or more fields");
     if (nf >= 2 && flen[0] == 0 && n >= 3) VWITNESS("leading empty field kept");
 #else
     if (ndel >= 2 && nf == 1) VWITNESS("empty fields dropped");
+    if (ndel >= 2 && nf == 2 && n == L) VWITNESS("two fields around dropped empty ones");
 #endif
 }
 
